@@ -67,26 +67,8 @@ fn vk_c04_history_arith_bonus() {
     assert!(t.0[1][12][28] == 0 && t.0[0][28][12] == 0);
 }
 
-//@ obligation: C12.history_reset
-//@ status: experimental
-//@ property: C12
-//@ domain: complete
-//@ functions: engine/search/tables.rs::HistoryTable::reset, engine/search/tables.rs::HistoryTable::new
-//@ timeout: 1800
-//@ mem_gb: 10
-//@ note: whatever the table held (one arbitrary cell set to an arbitrary value), after reset every one of the 8192 cells reads 0 -- the state of a freshly constructed table (ucinewgame == fresh engine, history part)
-#[kani::proof]
-#[kani::unwind(66)]
-fn vk_c12_history_reset() {
-    let mut t = HistoryTable::new();
-    let (pl, mv) = (geo::any_player(), any_quiet());
-    t.0[pl.array_idx()][mv.src().array_idx()][mv.dst().array_idx()] = kani::any();
-    t.reset();
-    let (p2, m2) = (geo::any_player(), any_quiet());
-    kani::cover!(true);
-    assert!(t.get(p2, m2) == 0);
-    assert!(HistoryTable::new().get(p2, m2) == 0);
-}
+// (C12.history_reset, a Kani harness that could vary one cell only and exceeded 10 GB, is superseded by the Verus
+// obligation C12.history.reset_all_zero in contracts/verus/history.vspec: all 8192 cells arbitrary, inductive invariants)
 
 //@ obligation: C04.history_arith.decay
 //@ status: experimental
